@@ -598,6 +598,8 @@ def replay(case):
         from mc.checks import c04_zero
 
         return c04_zero.replay(case)
+    if case.get("part") == "empty_category":
+        return eval_empty_category(case)
     vs = eval_libpass(case) if case.get("part") == "libpass" else eval_ctx(case)
     out, seen = [], set()
     for raw, desc in vs:
@@ -712,6 +714,52 @@ def work_cat_all(task):
     return acc
 
 
+def eval_empty_category(case):
+    """a category the configuration does not name -- the empty string among them -- is the default category: every
+    decision under category='' equals the decision under category=None"""
+    from passlib.context import CryptContext
+
+    cfg = case["cfg"]
+    out = []
+    try:
+        with warnings.catch_warnings():
+            warnings.simplefilter("ignore")
+            ctx = CryptContext(**cfg)
+            probe = ctx.hash("pw")
+    except Exception:  # noqa: BLE001 - the configurations are judged by the other parts
+        return out
+    ops = {
+        "default_scheme": lambda c: ctx.default_scheme(c),
+        "handler": lambda c: ctx.handler(category=c).name,
+        "identify": lambda c: ctx.identify(probe, category=c),
+        "needs_update": lambda c: ctx.needs_update(probe, category=c),
+        "verify": lambda c: ctx.verify("pw", probe, category=c),
+        "verify_and_update": lambda c: ctx.verify_and_update("pw", probe, category=c)[0],
+        "genconfig_scheme": lambda c: ctx.identify(ctx.genconfig(category=c)),
+        "hash_scheme": lambda c: ctx.identify(ctx.hash("pw", category=c)),
+    }
+    for cat in ("", " ", "no-such-category"):
+        for op, f in ops.items():
+            with warnings.catch_warnings():
+                warnings.simplefilter("ignore")
+                a, b = call(f, None), call(f, cat)
+            if a != b:
+                out.append((f"C04|category|unnamed_category_differs:{op}:{'empty' if cat == '' else 'blank' if cat == ' ' else 'unknown'}",
+                            f"{op} under category={cat!r} gives {b!r}, under category=None {a!r}  [config {cfg!r}]"))
+    return out
+
+
+def work_empty_category(task):
+    acc = Acc()
+    for label, cfg in task["cases"]:
+        case = {"part": "empty_category", "cfg": cfg}
+        acc.ev()
+        acc.cls("empty_category", label)
+        for key, desc in eval_empty_category(case):
+            acc.violation(key, desc, case)
+    return acc
+
+
 def full_product_size(maxn):
     total = 0
     for n in range(1, maxn + 1):
@@ -817,6 +865,8 @@ def run(ctx):
     acc_ca = core.pmap(work_cat_all, [{"cases": ca[i::32], "seed": seed} for i in range(32)])
     acc_ca.violations = finalize_keys(acc_ca.violations)
     ctx.merge(acc_ca, part="cat_all")
+    # part "empty_category": categories the configuration does not name, '' among them
+    ctx.merge(core.pmap(work_empty_category, [{"cases": ca[i::16][:12]} for i in range(16)]), part="empty_category")
     ctx.cov["states"] = acc.counters["states"]
     ctx.cov["transitions"] = acc.counters["transitions"]
     ctx.cov["traces_validated_against_impl"] = acc.counters["histories"]
